@@ -147,3 +147,110 @@ def transportPickRaw (ds : List FnDesc) (i : Nat) : Pick :=
   | none => .notFound
 
 end Octo.Wire
+
+namespace Octo.Wire
+open Octo
+
+/-! ### whole predicates
+
+`RepopulatePhysicalExpressionFunctions` runs `physical.Transformers.TransformExpr` over the expression: every
+sub-expression is rebuilt bottom-up and the descriptor loop above is applied at each function call; the result is
+accepted (`outOk`) only if every call found its function.  `PExpr` keeps of `physical.Expression` what this needs:
+the static type of every node (a `TypeFn` is applied to the types of the call's arguments), the sub-expressions,
+and for a call its name, the signature that is sent along and which descriptor's `Function` is attached. -/
+inductive PExpr where
+  /-- variable, constant: no sub-expressions -/
+  | leaf (ty : Ty)
+  /-- and, or, coalesce, tuple, type assertion, cast, object field access: sub-expressions only -/
+  | node (ty : Ty) (args : List PExpr)
+  /-- function call; `fn = some i`: the `Function` of descriptor `i` is attached, `none`: nil -/
+  | call (ty : Ty) (name : List Nat) (sig : Sig) (fn : Option Nat) (args : List PExpr)
+
+def PExpr.ty : PExpr → Ty
+  | .leaf t => t
+  | .node t _ => t
+  | .call t _ _ _ _ => t
+
+def tysOf : List PExpr → List Ty
+  | [] => []
+  | e :: es => e.ty :: tysOf es
+
+mutual
+/-- `encoding/json` there and back: the function pointers are not sent (`json:"-"`) -/
+def stripFns : PExpr → PExpr
+  | .leaf t => .leaf t
+  | .node t args => .node t (stripFnsL args)
+  | .call t name sig _ args => .call t name sig none (stripFnsL args)
+def stripFnsL : List PExpr → List PExpr
+  | [] => []
+  | e :: es => stripFns e :: stripFnsL es
+end
+
+mutual
+/-- `RepopulatePhysicalExpressionFunctions` over a descriptor table: the rebuilt expression and `outOk`;
+    `none` = a `TypeFn` panicked -/
+def repopTree (table : List FnEntry) : PExpr → Option (PExpr × Bool)
+  | .leaf t => some (.leaf t, true)
+  | .node t args =>
+    match repopTreeL table args with
+    | some (as, ok) => some (.node t as, ok)
+    | none => none
+  | .call t name sig fn args =>
+    match repopTreeL table args with
+    | none => none
+    | some (as, ok) =>
+      match lookupFn table name with
+      | none => some (.call t name sig fn as, false)           -- "Unknown function, rejecting predicate"
+      | some ds =>
+        match repopulate ds sig (tysOf as) with
+        | .found i => some (.call t name sig (some i) as, ok)
+        | .notFound => some (.call t name sig fn as, false)     -- "Unknown function signature, rejecting predicate"
+        | .panic => none
+def repopTreeL (table : List FnEntry) : List PExpr → Option (List PExpr × Bool)
+  | [] => some ([], true)
+  | e :: es =>
+    match repopTree table e, repopTreeL table es with
+    | some (e', ok1), some (es', ok2) => some (e' :: es', ok1 && ok2)
+    | _, _ => none
+end
+
+mutual
+/-- every call of the predicate carries the descriptor the typechecker's exact pass chose, and its signature -/
+def exactTyped (table : List FnEntry) : PExpr → Prop
+  | .leaf _ => True
+  | .node _ args => exactTypedL table args
+  | .call _ name sig fn args =>
+    exactTypedL table args ∧
+    ∃ ds i d, lookupFn table name = some ds ∧ exactPassFrom (tysOf args) 0 ds none = .found i ∧ ds[i]? = some d ∧
+      sig = d.sig ∧ fn = some i
+def exactTypedL (table : List FnEntry) : List PExpr → Prop
+  | [] => True
+  | e :: es => exactTyped table e ∧ exactTypedL table es
+end
+
+mutual
+/-- every call carries the descriptor `FunctionExpression.Typecheck` attaches (either pass) -/
+def typechecked (table : List FnEntry) : PExpr → Prop
+  | .leaf _ => True
+  | .node _ args => typecheckedL table args
+  | .call _ name sig fn args =>
+    typecheckedL table args ∧
+    ∃ ds i d, lookupFn table name = some ds ∧ typecheckPick ds (tysOf args) = .found i ∧ ds[i]? = some d ∧
+      sig = d.sig ∧ fn = some i
+def typecheckedL (table : List FnEntry) : List PExpr → Prop
+  | [] => True
+  | e :: es => typechecked table e ∧ typecheckedL table es
+end
+
+mutual
+/-- the descriptor indices attached to the calls of the expression, in pre-order (`none` = nil function) -/
+def fnsOf : PExpr → List (Option Nat)
+  | .leaf _ => []
+  | .node _ args => fnsOfL args
+  | .call _ _ _ fn args => fn :: fnsOfL args
+def fnsOfL : List PExpr → List (Option Nat)
+  | [] => []
+  | e :: es => fnsOf e ++ fnsOfL es
+end
+
+end Octo.Wire
